@@ -41,6 +41,7 @@ def cfg_of(params):
         "storage": params.get("storage", "mem"),
         "auto_index": params.get("ai", True),
         "csv_times": params.get("csv_times", 3),
+        "floats": params.get("floats", False),
     }
 
 
